@@ -5,11 +5,13 @@ PROP = "C01"
 
 
 def main():
-    return G.main(PROP, dict(verus_units=[("update_backtracks", 30)],
+    return G.main(PROP, dict(verus_units=[("update_backtracks", 30), ("nfa_to_dfa_targets", 11)],
                              trusted=G.COMMON_TRUSTED + [
                                  "Verus unit update_backtracks (real function, rules subst R5 R7 R16): preconditions wf_dfa (transition targets in range) and all_reachable are NOT verified at the caller "
                                  "(nfa_to_dfa / add_dfa build the DFA); three R7 fragments are trusted with assumed contracts: the initial work list (iterator chain), the loop over "
                                  "char_transitions.values() (vstd gives completeness but not soundness of values()), the by-value write-back loop; obeys_key_model for char and StateIdx keys (axioms)"],
                              assumptions=G.COMMON_ASSUMPTIONS + [
+                                 "proved for nfa_to_dfa (unit nfa_to_dfa_targets, see C02): a character arm stands for the character, the ranges containing it and `_` together - the generated code tests "
+                                 "character arms first, so a rule reachable only through a range or `_` would otherwise lose against a shorter character match",
                                  "proved for update_backtracks: termination (lexicographic measure), in-bounds indexing, its own assert_eq! cannot fire, everything but the flags unchanged, and the flags are closed "
                                  "under successors of flagged-or-accepting states (lemma_closed_implies_sound: every state reachable after an accepting state carries the flag)"]))
